@@ -74,6 +74,10 @@ structure Config where
   /-- `true` (since fix 16a67e4): a request without id whose method is unknown or whose params
   do not bind gets no reply. `false` (pinned commit): it is answered with an error, id null. -/
   silentNotificationErrors : Bool := true
+  /-- `false` (current code): a handler that panics or returns something `json.Marshal` rejects
+  costs the response (see `handleInputF`). `true` (proposed fix C11-handler-failure): such a
+  request is answered with -32603 Internal error. -/
+  internalErrorOnHandlerFailure : Bool := false
   deriving Repr, DecidableEq
 
 /-- The server as it is in the current tree (the harness probes the real server and refuses to
@@ -232,6 +236,11 @@ structure RpcError where
 structure HResult where
   result : Option Json := none
   error : Option RpcError := none
+  /-- the handler panics instead of returning -/
+  panics : Bool := false
+  /-- `json.Marshal` of what the handler returned succeeds (false: e.g. a NaN float, an invalid
+  `json.RawMessage`, a `MarshalJSON` that fails) -/
+  marshals : Bool := true
   deriving Repr, Inhabited
 
 /-- Everything the dispatcher gets from reflection and from the handlers. -/
@@ -507,5 +516,86 @@ def handleInput (cfg : Config) (env : Env) (tbl : Table) (inp : Input) : Output 
         log := batchLog cfg env tbl xs }
     | some _ => single (errResponse InvalidJSON (some opaqueData))  -- Decode(&[]RawMessage) type error
   else single (errResponse InvalidRequest (some (.str "batch requests are disabled")))
+
+/-! ## Handlers that fail (panic, unmarshallable return value)
+
+Everything above describes the dispatcher for handlers that return normally a value that
+`json.Marshal` accepts. `handleInputF` adds what server.go does otherwise:
+  * single request, unmarshallable response: `json.Marshal(resp)` fails, `HandleReader` returns
+    `(nil, header, err)` — no body; HTTP answers 500 with an empty body, the WebSocket loop closes
+    the connection;
+  * single request, panicking handler: the panic propagates to the transport (TODO in server.go);
+  * batch entry, unmarshallable response: `addResponse` logs the error and drops the entry;
+  * batch entry, panicking handler: the panic is caught by the `conc` pool (and would only be
+    re-raised by a `pool.Wait()` that is never called): the entry gets no response, the others do.
+With `internalErrorOnHandlerFailure` (proposed fix) the request is answered -32603 instead. -/
+
+def HResult.faulty (o : HResult) : Bool := o.panics || !o.marshals
+
+/-- handlers as the repaired server sees them: a failure becomes an Internal error -/
+def Env.sanitize (env : Env) : Env :=
+  { env with call := fun n a =>
+      let o := env.call n a
+      if o.faulty then { error := some (mkErr InternalError (some opaqueData)) } else o }
+
+/-- the handler outcome of a request value, if it gets as far as the handler (`none` otherwise):
+whether it has an id, and what the handler did -/
+def handlerOutcome (env : Env) (tbl : Table) (j : Json) : Option (Bool × HResult) :=
+  match decodeRequest j with
+  | none => none
+  | some req =>
+    match isSane req with
+    | some _ => none
+    | none =>
+      match lookupMethod tbl req.method with
+      | none => none
+      | some m =>
+        match buildArguments env req.params m with
+        | .error _ => none
+        | .ok args => some (req.id.isSome, env.call m.name args)
+
+/-- the response of this request value is lost: its handler panics, or its response (the request
+has an id) cannot be marshalled -/
+def responseLost (env : Env) (tbl : Table) (j : Json) : Bool :=
+  match handlerOutcome env tbl j with
+  | some (hasId, o) => o.panics || (hasId && !o.marshals)
+  | none => false
+
+def entryPanics (env : Env) (tbl : Table) (j : Json) : Bool :=
+  match handlerOutcome env tbl j with
+  | some (_, o) => o.panics
+  | none => false
+
+structure OutputF where
+  body : Option Json
+  log : List Call
+  /-- `HandleReader` returns a Go error instead of a response -/
+  goError : Bool := false
+  /-- a handler panic reaches the caller of `HandleReader` -/
+  panicked : Bool := false
+  deriving Repr, Inhabited
+
+/-- `HandleReader` for arbitrary handlers. -/
+def handleInputF (cfg : Config) (env : Env) (tbl : Table) (inp : Input) : OutputF :=
+  if cfg.internalErrorOnHandlerFailure then
+    let o := handleInput cfg env.sanitize tbl inp
+    { body := o.body, log := o.log }
+  else
+    let o := handleInput cfg env tbl inp
+    if !isBatch cfg inp then
+      match inp.parsed with
+      | some j =>
+        if entryPanics env tbl j then { body := none, log := o.log, panicked := true }
+        else if responseLost env tbl j then { body := none, log := o.log, goError := true }
+        else { body := o.body, log := o.log }
+      | none => { body := o.body, log := o.log }
+    else if !cfg.batchDisabled then
+      match inp.parsed with
+      | some (.arr (x :: xs)) =>
+        let kept := (x :: xs).filter (fun e => !responseLost env tbl e)
+        let rs := batchResponses cfg env tbl kept
+        { body := if rs.isEmpty then none else some (.arr (rs.map Response.toJson)), log := o.log }
+      | _ => { body := o.body, log := o.log }
+    else { body := o.body, log := o.log }
 
 end Juno.C11
